@@ -199,20 +199,76 @@ def gen_op(rng):
         s = rng.choice(["0", "1", "8", "9", "09", "10", "18", "19", "099", "0999", "1000", "1998", "1999", "8999", "9", "99", "999", "21999"] + [str(rng.randint(0, 99999))])
         o.update(s=s)
         return o, _exc(lambda: lexid.next_id(s), OverflowError)
+    if name == "re_sub":
+        import re
+        for _ in range(20):
+            pat = _gen_rx(rng)
+            try:
+                groups = re.compile(pat).groups
+                break
+            except re.error:
+                continue
+        else:
+            pat, groups = "\\b(OLD|NEW)\\b", 1
+        rep = _gen_repl(rng, groups)
+        words = ["OLD", "NEW", "a", "ab", "b", " ", "_", "1", "é", "-", "HOLD", "NEWS", "OLD_"]
+        s = "".join(rng.choice(words) for _ in range(rng.randint(0, 7)))
+        o.update(pat=pat, rep=rep, s=s)
+        try:
+            return o, {"ok": re.sub(pat, rep, s), "_may_refuse": True}
+        except (re.error, IndexError):
+            return o, {"refused": 1}
     raise AssertionError(name)
+
+
+_RX_ALPHA = "abOLDNEW _1é-"
+
+
+def _gen_rx(rng, depth=0):
+    import re
+    parts = []
+    for _ in range(rng.randint(1, 4)):
+        k = rng.random()
+        if k < 0.5:
+            c = rng.choice(_RX_ALPHA)
+            parts.append(re.escape(c) if rng.random() < 0.3 and c != "é" else c)
+        elif k < 0.65:
+            parts.append(rng.choice(["\\b", "\\B"]))
+        elif k < 0.85 and depth < 2:
+            inner = "|".join(_gen_rx(rng, depth + 1) for _ in range(rng.randint(1, 3)))
+            parts.append(("(%s)" if rng.random() < 0.7 else "(?:%s)") % inner)
+        else:
+            parts.append(rng.choice(["OLD", "NEW", "a", "ab"]))
+    return "".join(parts)
+
+
+def _gen_repl(rng, groups):
+    out = []
+    for _ in range(rng.randint(0, 5)):
+        k = rng.random()
+        if k < 0.6:
+            out.append(rng.choice("ab{}_X é"))
+        elif k < 0.85:
+            out.append("\\%d" % rng.randint(1, max(1, groups + (1 if rng.random() < 0.1 else 0))))
+        else:
+            out.append("\\\\")
+    return "".join(out)
 
 
 NAMES = ["replace_fp", "replace_pyp", "replace_v1", "slice_fp", "slice_pyp", "slice_from", "slice_to", "index_fp", "pop_fp", "getitem_pyp", "getitem_rw",
          "setitem_rw", "find_fp", "find_pyp", "int_genf", "int_to_str", "sorted_fp", "sorted_desc_fp", "sorted_items_fp", "sorted_rw", "sorted_asc_pyp",
          "sorted_desc_pyp", "sorted_cli", "sorted_rev_cli", "max_cli", "min_cli", "dict_fp", "dict_pyp", "dict_of_pairs_pyp", "dict_genf", "dict_of_list_genf",
          "dict_update_k", "set_of_list", "set_diff", "set_eq", "set_inter", "enumerate", "split_rw", "split_ws1", "before_first_blank", "date", "date_v1",
-         "date_add_days", "date_from_doy", "next_id"]
+         "date_add_days", "date_from_doy", "next_id", "re_sub"]
 
 
 def _canon(py, lean):
     if py.get("_set") and isinstance(lean.get("ok"), list):
         lean = dict(lean, ok=sorted(set(lean["ok"])))       # a set as a list: only membership is observed
-    py = {k: v for k, v in py.items() if k != "_set"}
+    if py.get("_may_refuse") and lean.get("refused"):
+        # the model's re.sub refuses patterns that can match the empty string (conservative): not a disagreement
+        return {}, {}
+    py = {k: v for k, v in py.items() if k not in ("_set", "_may_refuse")}
     return py, lean
 
 
